@@ -7,8 +7,10 @@ def main():
     with tempfile.TemporaryDirectory() as d:
         xml = os.path.join(d, "r.xml")
         env = dict(os.environ); env.pop("Y0_VERIF", None)
+        repo = os.environ.get("Y0_REPO", "/repo")
+        env["PYTHONPATH"] = os.path.join(repo, "src")
         subprocess.run(["/venv/bin/python", "-m", "pytest", "-ra", "-q", "-p", "no:cacheprovider", "--timeout=900",
-                        "--continue-on-collection-errors", f"--junitxml={xml}"], cwd="/repo", env=env,
+                        "--continue-on-collection-errors", f"--junitxml={xml}"], cwd=repo, env=env,
                        stdout=subprocess.DEVNULL, stderr=subprocess.DEVNULL)
         passed = set()
         for tc in ET.parse(xml).getroot().iter("testcase"):
